@@ -6,7 +6,7 @@
 (* moved or merged shared accesses - reported, not a violation; the history is      *)
 (* still judged by ThreadLinkTrace).  "observable": same schedule, different        *)
 (* hasNext value or different bytes returned by read - a violation.                 *)
-EXTENDS Naturals, Sequences, TLC, Json, IOUtils
+EXTENDS Naturals, Sequences, TLC, Json, IOUtils, ThreadLinkWords
 Log == ndJsonDeserialize(IOEnv.TRACE)
 VARIABLE l
 NB == 64
@@ -14,10 +14,7 @@ Init == l \in {0 - b : b \in 1..NB}
 Next == /\ l < 0
         /\ \E j \in 0..(Len(Log) \div NB) : LET i == j * NB + (0 - l) IN i <= Len(Log) /\ l' = i
 \* the 4-byte word (as a number) that cell <<id, off, len>> stands for in the driver's messages
-WordOf(c) == LET id == c[1] off == c[2] len == c[3] IN
-             IF off = 0 THEN 47 * 16777216 + (65 + (id % 60)) * 65536
-             ELSE IF off = 1 THEN 44 * 16777216 + (IF len >= 3 THEN 105 * 65536 ELSE 0) + (IF len >= 4 THEN 105 * 256 ELSE 0)
-             ELSE id * 16 + off
+WordOf(c) == WordAt(c[1], c[2], c[3])                       \* ThreadLinkWords.tla
 Words(m) == [i \in 1..Len(m) |-> WordOf(m[i])]
 Fails(rec) ==
   LET e == rec.exp  o == rec.obs IN
